@@ -24,7 +24,7 @@ RULE = ("cases from rng(seed, 11, 0, i), mode = i mod 5: (0) SE(2) chain and (1)
         "or an optimizer run with >= 1 completed iteration or a loader/normalize case with a non-canonical input.")
 REQ = ["eval:se2-angle-in-range", "eval:se2-angle-congruent", "eval:se3-unit-norm", "eval:normalize-postcondition", "eval:optimizer-vertex-invariant", "eval:loader-angle", "mode:0", "mode:1",
        "mode:2", "mode:3", "mode:4", "class:angle_huge", "class:angle_nearpi", "class:op:boxplus", "class:op:inverse", "class:op:sub", "class:diverging_run", "class:single_call_run_10+_iterations", "class:iteration_by_iteration_run", "class:normalize_input:unit_wneg",
-       "class:normalize_input:almost_unit_wneg"]
+       "class:normalize_input:almost_unit_wneg", "class:normalize_again_after_in_place_write"]
 PLAN = {
     "quick": {"cases": 1000, "soft_s": 70, "min_nontrivial": 300, "require": REQ},
     "thorough": {"cases": 12000, "soft_s": 1500, "min_nontrivial": 3000, "require": REQ},
@@ -240,6 +240,17 @@ def normalize_case(ctx, rng):
     inp = M.fl(P)
     P.normalize()
     check_normalized(ctx, M.fl(P), inp, "normalize:" + str(cl))
+    if rng.random() < 0.5:
+        # history on the same object (and on a numpy copy of it): a new quaternion written in place, then normalize() again
+        q2 = rng.normal(size=4) * float(10 ** rng.uniform(-1, 1))
+        if rng.random() < 0.5:
+            q2[3] = -abs(q2[3])
+        for target in (P, np.copy(P).view(M.PoseSE3), P[:].view(M.PoseSE3)):
+            target[3:] = q2
+            inp2 = M.fl(target)
+            target.normalize()
+            check_normalized(ctx, M.fl(target), inp2, "normalize:again-after-in-place-write")
+        ctx.count("class:normalize_again_after_in_place_write")
     return inp
 
 
